@@ -208,6 +208,8 @@ class Design:
             if k == "idx":
                 lo, hi = e.get("sl") or (0, e["arr"][0].w)
                 return {"k": "idx", "arr": [x.idx + 1 for x in e["arr"]], "i": ex(e["i"]), "lo": lo, "hi": hi}
+            if k == "vsl":
+                return {"k": "vsl", "s": e["sig"].idx + 1, "b": ex(e["b"]), "w": e["w"]}
             if k == "not":
                 return {"k": "not", "a": ex(e["a"]), "w": e["w"]}
             if k == "bin":
@@ -235,6 +237,8 @@ class Design:
                         "e": ex(x["e"])}
             if x["k"] == "asi":
                 return {"k": "asi", "arr": [a.idx + 1 for a in x["arr"]], "i": ex(x["i"]), "e": ex(x["e"])}
+            if x["k"] == "asv":
+                return {"k": "asv", "s": x["sig"].idx + 1, "al": al(x["sig"].idx), "b": ex(x["b"]), "w": x["w"], "e": ex(x["e"])}
             if x["k"] == "if":
                 return {"k": "if", "c": ex(x["c"]), "th": [st(y) for y in x["th"]], "el": [st(y) for y in x["el"]]}
             raise KeyError(x["k"])
@@ -293,6 +297,10 @@ class Design:
             base = ".".join(("s",) + a0.comp[len(host):] + (a0.arr[0],))
             sl = "[%d:%d]" % e["sl"] if e.get("sl") else ""     # s.arr[s.sel][lo:hi]: index in an inner position
             return "%s[%s]%s" % (base, P(e["i"]), sl)
+        if k == "vsl":      # a slice with computed bounds: s.x[ b : b + w ]
+            sg = e["sig"]
+            nm = ".".join(("s",) + sg.comp[len(host):] + (sg.attr,))
+            return "%s[ %s : %s + %d ]" % (nm, P(e["b"]), P(e["b"]), e["w"])
         if k == "not":
             return "(~%s)" % P(e["a"])
         if k == "bin":
@@ -338,6 +346,11 @@ class Design:
                 out.append("%s%s %s %s" % (ind, t.rel(host), op,
                                            d.py_rhs(x["e"], host, isinstance(t.leafty, int) and t.leafty == x["e"].get("w"),
                                                     t.sl is not None)))
+            elif x["k"] == "asv":
+                sg = x["sig"]
+                nm = ".".join(("s",) + sg.comp[len(host):] + (sg.attr,))
+                out.append("%s%s[ %s : %s + %d ] %s %s" % (ind, nm, d.py_expr(x["b"], host), d.py_expr(x["b"], host), x["w"], op,
+                                                           d.py_expr(x["e"], host)))
             elif x["k"] == "asi":
                 a0 = x["arr"][0]
                 base = ".".join(("s",) + a0.comp[len(host):] + (a0.arr[0],))
@@ -915,6 +928,8 @@ def footprints(dj):
             for s in e["arr"]:
                 out |= {(s, b) for b in range(e["lo"], e["hi"])}
             return out
+        if k == "vsl":
+            return erefs(e["b"]) | {(e["s"], b) for b in range(dj["sigs"][e["s"] - 1]["w"])}
         out = set()
         for f in ("a", "b", "c", "hi", "lo"):
             if f in e and isinstance(e[f], dict):
@@ -928,6 +943,8 @@ def footprints(dj):
                 out |= erefs(x["e"])
             elif x["k"] == "asi":
                 out |= erefs(x["e"]) | erefs(x["i"])
+            elif x["k"] == "asv":
+                out |= erefs(x["e"]) | erefs(x["b"])
             else:
                 out |= erefs(x["c"]) | sr(x["th"]) | sr(x["el"])
         return out
@@ -940,6 +957,8 @@ def footprints(dj):
             elif x["k"] == "asi":
                 for s in x["arr"]:
                     out |= {(s, b) for b in range(dj["sigs"][s - 1]["w"])}
+            elif x["k"] == "asv":
+                out |= {(x["s"], b) for b in range(dj["sigs"][x["s"] - 1]["w"])}
             else:
                 out |= sw(x["th"]) | sw(x["el"])
         return out
@@ -1027,6 +1046,10 @@ def alias_self_loop(dj):
                 out_r.add(x["s"])
             elif k == "idx":
                 out_r.update(x["arr"])
+            elif k == "vsl":
+                out_r.add(x["s"])
+            elif k == "asv":
+                out_w.add(x["s"])
             elif k == "as":
                 out_w.add(x["t"]["s"])
             elif k == "asi":
